@@ -316,6 +316,11 @@ class ExprEval:
                     continue
                 raise Unsupported("`in` on this container")
             a, b = self.ev(l), self.ev(r)
+            if isinstance(a, Arr1) and not isinstance(b, (Arr1, tuple, Small)) and isinstance(op, (ast.Eq, ast.NotEq)) and len(n.ops) == 1:
+                # numpy element-wise comparison of a 1-d array with a scalar: a 0/1 array of the same length
+                bv = as_int(b)
+                eq = isinstance(op, ast.Eq)
+                return Arr1(lambda i, a=a, bv=bv, eq=eq: z3.If((as_int(a.get(i)) == bv) if eq else (as_int(a.get(i)) != bv), z3.IntVal(1), z3.IntVal(0)), a.length)
             if isinstance(a, tuple) and isinstance(b, tuple):
                 eq = z3.And(*[as_int(x) == as_int(y) for x, y in zip(a, b)])
                 parts.append(eq if isinstance(op, ast.Eq) else z3.Not(eq))
@@ -548,10 +553,32 @@ class ExprEval:
             return z3.Implies(as_bool(self.ev(n.args[0])), as_bool(self.ev(n.args[1])))
         if name == "iff":
             return as_bool(self.ev(n.args[0])) == as_bool(self.ev(n.args[1]))
+        if name == "arange" and isinstance(f, ast.Attribute) and n.args and self.engine is not None:
+            return Arr1(lambda i: i, as_int(self.ev(n.args[0])))
+        if name == "where" and isinstance(f, ast.Attribute) and len(n.args) == 1 and self.engine is not None:
+            # np.where(b) of a 1-d array: (W,) with W the increasing list of the positions where b is non-zero
+            b = self.ev(n.args[0])
+            if not isinstance(b, Arr1):
+                raise Unsupported("np.where of this value")
+            w, L, qi, qj, qe, qw = fresh("where", A1), fresh("wlen"), fresh("i"), fresh("j"), fresh("e"), fresh("w")
+            nz = lambda t: as_int(b.get(t)) != 0   # noqa: E731
+            self.engine.curpath = self.engine.curpath + [
+                L >= 0, L <= b.length,
+                z3.ForAll([qi], z3.Implies(z3.And(0 <= qi, qi < L), z3.And(0 <= z3.Select(w, qi), z3.Select(w, qi) < b.length, nz(z3.Select(w, qi))))),
+                z3.ForAll([qi, qj], z3.Implies(z3.And(0 <= qi, qi < qj, qj < L), z3.Select(w, qi) < z3.Select(w, qj))),
+                z3.ForAll([qe], z3.Implies(z3.And(0 <= qe, qe < b.length, nz(qe)), z3.Exists([qw], z3.And(0 <= qw, qw < L, z3.Select(w, qw) == qe))))]
+            return (Arr1(lambda i, w=w: z3.Select(w, i), L),)
         if name in ("max", "min") and len(n.args) == 1 and self.engine is not None:
             v = self.ev(n.args[0])
             if isinstance(v, Small) and len(v.shape) == 1:
                 v = tuple(v.data)
+            if isinstance(v, Arr1) and name == "max":
+                # maximum of a non-empty 1-d array (Python raises on an empty one: obligation)
+                self.engine.emit("raises[max() of an empty array]", self.engine.curpath, v.length > 0, n.lineno)
+                m, qi, wi = fresh("max"), fresh("i"), fresh("wi")
+                self.engine.curpath = self.engine.curpath + [z3.ForAll([qi], z3.Implies(z3.And(0 <= qi, qi < v.length), as_int(v.get(qi)) <= m)),
+                                                             0 <= wi, wi < v.length, as_int(v.get(wi)) == m]
+                return m
             if isinstance(v, Arr2) and name == "max":
                 # maximum of all entries of a non-empty 2-d array: an upper bound that is attained
                 m, qi, qj, wi, wj = fresh("max"), fresh("i"), fresh("j"), fresh("wi"), fresh("wj")
@@ -869,6 +896,11 @@ class Engine:
                 if node.func.attr == "zeros":
                     return Arr2(z3.K(I, z3.K(I, z3.IntVal(0))), tuple(vals))
                 return Arr2(fresh("empty", A2), tuple(vals))
+            if len(vals) == 1:
+                if node.func.attr == "zeros":
+                    return Arr1(lambda i: z3.IntVal(0), vals[0])
+                a = fresh("empty1", A1)
+                return Arr1(lambda i, a=a: z3.Select(a, i), vals[0])
             raise Unsupported("allocation of this shape")
         if isinstance(node, ast.List) and not node.elts:
             return PairList(fresh("lst0", A1), fresh("lst1", A1), z3.IntVal(0))
@@ -927,6 +959,24 @@ class Engine:
                 else:
                     new.data[ks[0]][ks[1]] = as_int(val)
                 env[target.value.id] = new
+                return env
+            if isinstance(base, Arr1) and len(idx) == 1 and isinstance(idx[0], ast.Slice) and isinstance(val, Arr1) and idx[0].step is None:
+                # a[lo:hi] = b  (numpy raises unless 0 <= lo <= hi <= len(a) ... and len(b) == hi - lo; Python's silent clipping is excluded by the obligation)
+                lo = as_int(ee.ev(idx[0].lower)) if idx[0].lower is not None else z3.IntVal(0)
+                hi = as_int(ee.ev(idx[0].upper)) if idx[0].upper is not None else base.length
+                if not self.contract.get("assume_slice_store_in_range"):
+                    self.emit("slice-store-bounds[%s]" % target.value.id, path, z3.And(0 <= lo, lo <= hi, hi <= base.length), line)
+                else:
+                    path.extend([0 <= lo, lo <= hi, hi <= base.length])
+                self.emit("slice-store-length[%s]" % target.value.id, path, val.length == hi - lo, line)
+                # the updated array is a fresh symbol characterised in both index conventions (a'[q] == b[q - lo] and a'[lo + w] == b[w]): the second
+                # form lets the solver reach the position lo + w from a fact about b[w]
+                a2, q, w = fresh(target.value.id, A1), fresh("q"), fresh("w")
+                path.extend([
+                    z3.ForAll([q], z3.Implies(z3.And(lo <= q, q < hi), z3.Select(a2, q) == as_int(val.get(q - lo)))),
+                    z3.ForAll([w], z3.Implies(z3.And(0 <= w, w < val.length), z3.Select(a2, lo + w) == as_int(val.get(w)))),
+                    z3.ForAll([q], z3.Implies(z3.Or(q < lo, q >= hi), z3.Select(a2, q) == as_int(base.get(q))))])
+                env[target.value.id] = Arr1(lambda t, a2=a2: z3.Select(a2, t), base.length)
                 return env
             if isinstance(base, Arr1):
                 if len(idx) != 1 or isinstance(idx[0], ast.Slice):
